@@ -104,7 +104,9 @@ Inductive resp :=
 | RTtl (ttl : N)
 | RGet (v : option (value * ts))
 | RPairs (ps : list pair)
-| RLocks (ls : list (key * key * ts)).
+| RLocks (ls : list (key * key * ts))
+| RMvcc (k : key) (ks : kstate)      (* MvccGetByStartTs: the key found (0 = none) and all its records *)
+| RPanic.                            (* the mock panics (ForceLock result count) *)
 
 (* ------------------------------------------------------------------ reads *)
 (* mvccLock.check: Some ts' = read at ts'; None = blocked by the lock *)
@@ -144,22 +146,29 @@ Definition scan_entry (t : ts) (resolved : list ts) (kv : key * kstate) : list p
   | RdVal None => []
   end.
 
-(* Scan: walk the keys of [s,e) upwards, stop at limit pairs *)
-Fixpoint scan_fwd (st : store) (s e : key) (limit : nat) (t : ts) (resolved : list ts) : list pair :=
+(* Scan: walk the keys of [s,e) upwards, stop at limit pairs; every key contributes at most one pair *)
+Fixpoint scan_gen (entry : key * kstate -> list pair) (st : store) (s e : key) (limit : nat) : list pair :=
   match limit with
   | O => []
   | S _ =>
     match st with
     | [] => []
     | kv :: r => if in_range s e (fst kv)
-                 then let ps := scan_entry t resolved kv in
-                      ps ++ scan_fwd r s e (limit - length ps) t resolved
-                 else scan_fwd r s e limit t resolved
+                 then let ps := entry kv in ps ++ scan_gen entry r s e (limit - length ps)
+                 else scan_gen entry r s e limit
     end
   end.
-(* ReverseScan: walk the keys of [s,e) downwards *)
+Definition scan_fwd (st : store) (s e : key) (limit : nat) (t : ts) (resolved : list ts) : list pair :=
+  scan_gen (scan_entry t resolved) st s e limit.
+(* ReverseScan: walk the keys of [s,e) downwards (an empty Put value is present, as in the forward paths) *)
 Definition scan_rev (st : store) (s e : key) (limit : nat) (t : ts) (resolved : list ts) : list pair :=
-  scan_fwd (rev st) s e limit t resolved.
+  scan_gen (scan_entry t resolved) (rev st) s e limit.
+
+(* isolation level RC: locks are ignored *)
+Definition rc_entry (t : ts) (kv : key * kstate) : list pair :=
+  match read_writes (ks_writes (snd kv)) t with Some (v, _) => [PVal (fst kv) v 0] | None => [] end.
+Inductive rquery := QGet (k : key) (t : ts) | QBatchGet (ks : list key) (t : ts)
+                  | QScan (s e : key) (limit : nat) (t : ts) | QReverseScan (s e : key) (limit : nat) (t : ts).
 
 Definition batch_get (st : store) (ks : list key) (t : ts) (resolved : list ts) : list pair :=
   flat_map (fun k => match get_ks_value (get_ks st k) k t resolved with
@@ -188,7 +197,7 @@ Fixpoint ccv_loop (a : ccv_arg) (assert_on : bool) (conflict : option err) (ws :
       let ncr := ncr && negb (w_commit w <? c_start a) in
       let cont (nsne : bool) :=
         let '(ngv, ret) := match w_kind w with
-                           | WPut => if ngv then (false, Some (w_value w)) else (ngv, ret)
+                           | WPut => if ngv then (false, if w_value w =? 0 then None else Some (w_value w)) else (ngv, ret)
                            | WDel => if ngv then (false, None) else (ngv, ret)
                            | _ => (ngv, ret)
                            end in
@@ -402,7 +411,10 @@ Inductive cmd :=
 | Get (k : key) (t : ts) (resolved : list ts)
 | BatchGet (ks : list key) (t : ts) (resolved : list ts)
 | Scan (s e : key) (limit : nat) (t : ts) (resolved : list ts)
-| ReverseScan (s e : key) (limit : nat) (t : ts) (resolved : list ts).
+| ReverseScan (s e : key) (limit : nat) (t : ts) (resolved : list ts)
+| Rc (q : rquery)                       (* Get / BatchGet / Scan / ReverseScan at isolation level RC *)
+| DeleteRange (s e : key)
+| MvccByStartTs (start : ts).
 
 (* a write batch: every item is evaluated against the store as it was before the command
    (the Go code reads the DB, not the batch) and the batch is applied only if no item failed *)
@@ -543,6 +555,9 @@ Definition step (st : store) (c : cmd) : store * resp :=
     (if has_err es then st else acc, RErrs es)
   | PessLock r =>
     let '(acc, es, rs) := pess_lock_all st st r (p_keys r) in
+    if (match es with [] => true | _ => p_force r end) && negb (Nat.eqb (length rs) (length (p_keys r)))
+    then (st, RPanic)   (* "pessimistic lock result count not match": ForceLock + NoWait stopped at a locked key *)
+    else
     match es with
     | [] => (acc, RPess [] (if p_force r || p_return_values r || p_check_existence r then rs else []))
     | _ => (st, RPess es (if p_force r then rs else []))
@@ -584,6 +599,20 @@ Definition step (st : store) (c : cmd) : store * resp :=
   | BatchGet ks t resolved => (st, RPairs (batch_get st ks t resolved))
   | Scan s e limit t resolved => (st, RPairs (scan_fwd st s e limit t resolved))
   | ReverseScan s e limit t resolved => (st, RPairs (scan_rev st s e limit t resolved))
+  | Rc q =>
+    (st, match q with
+         | QGet k t => RGet (read_writes (ks_writes (get_ks st k)) t)
+         | QBatchGet ks t => RPairs (flat_map (fun k => match read_writes (ks_writes (get_ks st k)) t with
+                                                        | Some (v, c) => [PVal k v c] | None => [] end) ks)
+         | QScan s e limit t => RPairs (scan_gen (rc_entry t) st s e limit)
+         | QReverseScan s e limit t => RPairs (scan_gen (rc_entry t) (rev st) s e limit)
+         end)
+  | DeleteRange s e => (map_range st s e (fun _ _ => Some empty_ks), RErr None)
+  | MvccByStartTs start =>
+    (st, match find (fun kv => existsb (fun w => w_start w =? start) (ks_writes (snd kv))) st with
+         | Some kv => RMvcc (fst kv) (snd kv)
+         | None => RMvcc 0 empty_ks
+         end)
   end.
 
 Definition run (cmds : list cmd) : store := fold_left (fun st c => fst (step st c)) cmds [].
